@@ -32,7 +32,7 @@ RULE = ('scenarios = AtomicWriter in bytes/text mode with 0..5 body writes (size
         'destination present or absent; for each scenario EVERY operation boundary (before/after each open, write, '
         'flush, close, replace, unlink, mkdir) x {crash, EIO, ENOSPC, EACCES}; BSP.save on tests/test_vec/rot_main.bsp: '
         'every boundary for crashes (a seeded third in quick), seeded sample for faults; two writers in one directory '
-        'interleaved at every pair of boundaries (both orders); thorough: the same scenarios under strace inject= at '
+        'interleaved at every pair of boundaries (both orders; destination name pairs: unrelated, same stem with different extensions, one name extending the other); thorough: the same scenarios under strace inject= at '
         'the k-th openat/write/close/rename/unlink system call (errors and SIGKILL). Oracle after each run: directory '
         'listing and bytes - crash: destination in {old, new}; handled failure: destination == old and no new tmp_*; '
         'success: destination == new and no new tmp_*. Non-trivial = the boundary lies strictly inside the write '
@@ -265,22 +265,27 @@ def interleavings(run, thorough: bool) -> None:
     variants = [({'is_bytes': True, 'writes': [7000, 9000]}, 'both succeed'), ({'is_bytes': True, 'writes': [7000, 9000], 'raise_at': 1}, 'B aborts'),
                 ({'is_bytes': False, 'writes': [100], 'raise_at': 1}, 'B aborts at the end')]
     na = len(record_cache(scn_a))
+    # destination name pairs: unrelated, same stem with different extensions, one name extending the other
+    name_pairs = [('a.bin', 'b.bin'), ('mymap.bsp', 'mymap.lin'), ('data.txt', 'data.txt.bak'), ('x', 'x.tmp')]
     for scn_b, label in variants:
         nb = len(record_cache(scn_b))
         for i in range(na):
             for j in range(nb):
                 if not thorough and (i * 31 + j * 17 + run.seed) % 3:
                     continue
+                names = name_pairs[(i + j) % len(name_pairs)] if not thorough else None
                 for first in ('A', 'B'):
-                    two_writers(run, scn_a, scn_b, i, j, first, label)
+                    for pair in ([names] if names else name_pairs):
+                        two_writers(run, scn_a, scn_b, i, j, first, label, pair)
     run.extra['interleaving_grid'] = [na, [len(record_cache(v[0])) for v in variants]]
 
 
-def two_writers(run, scn_a: dict, scn_b: dict, i: int, j: int, first: str, label: str) -> None:
+def two_writers(run, scn_a: dict, scn_b: dict, i: int, j: int, first: str, label: str, names=('a.bin', 'b.bin')) -> None:
     d = tempfile.mkdtemp(prefix='rv-c12-')
-    case = {'two_writers': [scn_a, scn_b], 'gates': [i, j], 'first': first}
+    case = {'two_writers': [scn_a, scn_b], 'gates': [i, j], 'first': first, 'names': list(names)}
+    name_a, name_b = names
     try:
-        for name in ('a.bin', 'b.bin'):
+        for name in names:
             with open(os.path.join(d, name), 'wb') as f:
                 f.write(OLD)
         before = set(os.listdir(d))
@@ -296,8 +301,8 @@ def two_writers(run, scn_a: dict, scn_b: dict, i: int, j: int, first: str, label
                 results[tag] = run_writer(d, scn, fname)
             except BaseException as exc:  # pragma: no cover
                 results[tag] = 'thread-error:' + repr(exc)
-        ta = threading.Thread(target=work, args=('A', scn_a, 'a.bin'), name='A')
-        tb = threading.Thread(target=work, args=('B', scn_b, 'b.bin'), name='B')
+        ta = threading.Thread(target=work, args=('A', scn_a, name_a), name='A')
+        tb = threading.Thread(target=work, args=('B', scn_b, name_b), name='B')
         layer.install()
         try:
             order = [(ta, ga), (tb, gb)] if first == 'A' else [(tb, gb), (ta, ga)]
@@ -314,7 +319,27 @@ def two_writers(run, scn_a: dict, scn_b: dict, i: int, j: int, first: str, label
             gb[1].set()
             layer.uninstall()
         run.count('interleavings_run')
-        for tag, scn, fname in (('A', scn_a, 'a.bin'), ('B', scn_b, 'b.bin')):
+        # direct monitor over the operation log: a temporary file is OWNED by the writer that created it, from its
+        # successful open until its own rename/unlink.  Any successful operation of the other writer on a live temp
+        # file of this one (re-open, write, rename, unlink) is a clobber.  Re-using a NAME after the owner has renamed
+        # its file away is fine.
+        owner: Dict[str, str] = {}
+        shared = []
+        for (k, kind, fname), tname in zip(layer.log, layer.log_threads):
+            if fname in names or tname not in ('A', 'B') or not kind.endswith('/done') or kind.startswith('mkdir'):
+                continue
+            cur = owner.get(fname)
+            if cur is not None and cur != tname:
+                shared.append(f'{k}:{tname} {kind} on {fname} owned by {cur}')
+            if kind.startswith('open'):
+                owner[fname] = tname
+            elif kind.startswith(('replace', 'rename', 'unlink', 'remove')):
+                owner.pop(fname, None)
+        if shared:
+            run.violation(f'two writers ({label}, destinations {names}, gates A@{i} B@{j}, {first} first): one writer operated on the live temporary file of the other: {shared[0]}',
+                          witness={'events': shared[:6], 'log': [f'{t}:{k}:{kind} {n}' for (k, kind, n), t in zip(layer.log, layer.log_threads)][:80]}, case=case,
+                          engine='two-writers', key='writers-share-temp-file')
+        for tag, scn, fname in (('A', scn_a, name_a), ('B', scn_b, name_b)):
             content, tmps = inspect(os.path.join(d, fname), before)
             want_ok = scn.get('raise_at') is None
             res = results.get(tag, 'missing')
@@ -324,10 +349,11 @@ def two_writers(run, scn_a: dict, scn_b: dict, i: int, j: int, first: str, label
             if not want_ok and (not res.startswith('handled:BodyError') or content != OLD):
                 run.violation(f'two writers ({label}, gates A@{i} B@{j}, {first} first): aborting writer {tag} ended with {res}, destination changed={content != OLD}',
                               witness={'log': [f'{k}:{kind} {n}' for k, kind, n in layer.log][:80]}, case=case, engine='two-writers', key='writers-clobber-each-other')
-        _, tmps = inspect(os.path.join(d, 'a.bin'), before)
+        sub_now = set(os.listdir(d))
+        tmps = sorted(n for n in sub_now - before if n not in names)
         if tmps:
-            run.violation(f'two writers ({label}, gates A@{i} B@{j}): temp files {tmps} left behind', case=case, engine='two-writers', key='writers-leave-temp')
-        run.case(['two', label, i, j, first], True)
+            run.violation(f'two writers ({label}, destinations {names}, gates A@{i} B@{j}): files {tmps} left behind', case=case, engine='two-writers', key='writers-leave-temp')
+        run.case(['two', label, i, j, first, names], True)
     finally:
         shutil.rmtree(d, ignore_errors=True)
 
@@ -526,7 +552,7 @@ def replay(run, data) -> None:
         run_with_action(run, case['scenario'], act, 'replay', case)
     elif 'two_writers' in case:
         a, b = case['two_writers']
-        two_writers(run, a, b, case['gates'][0], case['gates'][1], case['first'], 'replay')
+        two_writers(run, a, b, case['gates'][0], case['gates'][1], case['first'], 'replay', tuple(case.get('names', ('a.bin', 'b.bin'))))
     elif 'strace' in case:
         strace_engine(run)
     else:
